@@ -442,7 +442,42 @@ func c10ReadTCP(c net.Conn, acc *[]byte, tok []byte) *wireMsg {
 	}
 }
 
-func c10TCPRun(seed uint64, good, bad, nreq int) (string, bool, map[string]int, error) {
+func c10TCPMaxSize(flood bool) uint32 {
+	if flood {
+		return 4096
+	}
+	return 2048
+}
+
+// c10AwaitPongOrClose reads until a Pong signal arrives or the server closes the connection (watchdog c10Wait).
+func c10AwaitPongOrClose(c net.Conn) bool {
+	var acc []byte
+	buf := make([]byte, 4096)
+	_ = c.SetReadDeadline(time.Now().Add(c10Wait))
+	for {
+		for {
+			var h tcpCoder.MessageHeader
+			if _, err := tcpCoder.DefaultCoder.DecodeHeader(acc, &h); err != nil || uint32(len(acc)) < h.MessageLength {
+				break
+			}
+			if h.Code == codes.Pong {
+				return true
+			}
+			acc = acc[h.MessageLength:]
+		}
+		n, err := c.Read(buf)
+		if err != nil {
+			var ne net.Error
+			if os.Getenv("HXDBG") != "" {
+				fmt.Fprintf(os.Stderr, "tcpopt wait ended: %v\n", err)
+			}
+			return !(errors.As(err, &ne) && ne.Timeout())
+		}
+		acc = append(acc, buf[:n]...)
+	}
+}
+
+func c10TCPRun(seed uint64, good, bad, nreq int, flood bool) (string, bool, map[string]int, error) {
 	rng := NewRng(seed)
 	app := newC10App()
 	l, err := coapNet.NewTCPListener("tcp4", "127.0.0.1:0")
@@ -460,7 +495,7 @@ func c10TCPRun(seed uint64, good, bad, nreq int) (string, bool, map[string]int, 
 				atomic.AddInt32(v.(*int32), 1)
 			}
 		}),
-		options.WithMaxMessageSize(2048),
+		options.WithMaxMessageSize(c10TCPMaxSize(flood)),
 		options.WithInactivityMonitor(time.Hour, func(cc *tcpClient.Conn) { _ = cc.Close() }),
 		options.WithOnNewConn(func(cc *tcpClient.Conn) {
 			app.mu.Lock()
@@ -540,9 +575,31 @@ func c10TCPRun(seed uint64, good, bad, nreq int) (string, bool, map[string]int, 
 			if err != nil {
 				return
 			}
-			kind := r.Intn(7)
+			kind := 7
+			if !flood || r.Chance(15) {
+				kind = r.Intn(7)
+			}
 			name := ""
 			switch kind {
+			case 7: // round 4 (tcpopt: runs): frames made of long runs of small options, then a Ping signal; the peer
+				// waits until the server has consumed them (Pong, or the connection closed because of a malformed one)
+				name = "many-options"
+				nf := 1 + r.Intn(3)
+				for k := 0; k < nf; k++ {
+					w := c10ManyOptions(r, true, 4000, 11)
+					_, _ = c.Write(w.bytes())
+					if os.Getenv("HXDBG") != "" {
+						fmt.Fprintf(os.Stderr, "tcpopt frame: n=%d b=%#x post=%v\n", w.n, w.b, w.post)
+					}
+					if len(w.post) > 0 && w.post[0] != 0xff {
+						break // the server closes the connection on this one
+					}
+				}
+				_, _ = c.Write(c10EncodeTCP(0xe2, []byte{0xF0, 0x0D}, nil, nil))
+				ok := c10AwaitPongOrClose(c)
+				if os.Getenv("HXDBG") != "" {
+					fmt.Fprintf(os.Stderr, "tcpopt consumed: %v\n", ok)
+				}
 			case 0: // connect and stall
 				name = "connect-stall"
 			case 1: // partial frame then stall
